@@ -6,6 +6,17 @@ import subprocess
 VERIF = os.path.dirname(os.path.dirname(os.path.abspath(__file__)))
 
 CHECKS = {
+    "C02": dict(
+        cat="other", ref="§5 C02",
+        text="Bounded solver verdict on the symbolic run of the real verifier: the premises of the standard "
+             "soundness argument -- each of the 15 evaluations and 11 commitments of a proof influences the "
+             "acceptance polynomial (solver-confirmed witness; otherwise replayed as an accepted forgery), the "
+             "batched selector commitments enter the opening part, the all-identity/all-zero proof leaves a "
+             "non-zero acceptance polynomial, and every proof field is absorbed before the challenge that must "
+             "depend on it.",
+        note="the knowledge-soundness reduction itself is the standard argument and is not encoded; relies on "
+             "C03 (acceptance polynomial == spec) established on the same runs",
+        tech="symbolic execution of the real verifier + SMT (z3)"),
     "C03": dict(
         cat="other", ref="§5 C03",
         text="Bounded solver verdict: the real Verifier::try_from_bytes / Proof::from_bytes / "
@@ -68,6 +79,26 @@ CHECKS = {
              "solver-checked bound lemmas; uniqueness of binary expansion is cited (re-decided for N<=8); "
              "'satisfiable for every input' only at honest witnesses of boundary inputs",
         tech="constraint extraction from the real composer + symbolic row semantics + SMT (z3 LIA/NIA)"),
+    "C19": dict(
+        cat="other", ref="§5 C19",
+        text="Bounded solver verdict: the real fft/ifft/coset_fft/coset_ifft, Polynomial arithmetic, ruffini, "
+             "evaluate, batch_inversion and the Lagrange/vanishing/barycentric closed forms run on symbolic vectors; "
+             "z3 proves every output coordinate equal to the textbook definition (cut-point lemmas for the "
+             "butterflies; all truncation / zero-pattern paths explored).",
+        note="domain sizes 2^0..2^3 (thorough 2^5), polynomial length <=3 (5), batch inversion length <=3 (4); "
+             "thread counts and the >=2^12 parallel strategies are outside the claim",
+        tech="symbolic execution of the real kernels + SMT (z3) with cut-point sweeping"),
+    "C20": dict(
+        cat="other", ref="§5 C20",
+        text="Bounded solver verdict: the real PublicParameters::setup (RNG scripted to symbolic draws), trim, "
+             "commit, compute_aggregate_witness, flatten and batch_check in the discrete-log group model; z3 proves "
+             "SRS = powers of one secret with matching G2 elements, commitments are the linear image of the "
+             "coefficient vector (Err beyond the key degree on every path), honest aggregated openings satisfy the "
+             "check, the batch acceptance polynomial equals the textbook one and binds every evaluation, point, "
+             "witness and commitment, and the batch challenge absorbs the complete batch.",
+        note="SRS degree <=4 (thorough 8), <=3 polynomials per aggregate, batch size <=2 (thorough 4); "
+             "random-oracle transcript; KZG binding is the standard assumption",
+        tech="symbolic execution of the real KZG code (symbolic field + dlog groups) + SMT (z3)"),
 }
 
 NOT_APPLICABLE = {
